@@ -128,6 +128,11 @@ def run(tier, seed):
                 forms = ["{%s} - 2 * {%s}", "{%s} / {%s}", "{%s} ** 2 + {%s}", "3 * {%s} - {%s} / 7"]
                 sub += "".join("Dgate(%s, %s) | %d\n" % (rng.choice(forms) % tuple(rng.sample(ps, 2)), rng.choice(forms) % tuple(rng.sample(ps, 2)), modes[0]) for _ in range(3))
                 sub += "".join("Kgate({%s}) | %d\n" % (p_, modes[0]) for p_ in ps)
+                # operations with two to four SYMBOLIC keyword arguments (and plain ones among them): their written order is the
+                # order in the instantiated program and in its serialisation, in every process
+                kws = ["%s=%s" % (k_, rng.choice(["{%s}", "2 * {%s}", "{%s} - 1", "[{%s}, 1]"]) % rng.choice(ps)) for k_ in rng.sample(["theta", "phi", "r", "select", "kappa", "a", "zz"], rng.randint(2, 4))]
+                kws.insert(rng.randrange(len(kws) + 1), "plain=0.5")
+                sub += "BSgate(%s) | %d\n" % (", ".join(kws), modes[0])
                 if i % 4 == 3:
                     # the including script is itself a template and hands its own parameters, named like the included
                     # program's parameters but crosswise, on as values (a={b}, b=0.25): simultaneous binding, in every run
